@@ -9,9 +9,12 @@ def MutDict(x): return ("MutDict", x)
 def TupleOf(*x): return ("TupleOf",) + x
 def Opt(x): return ("Opt", x)
 def Val(x): return ("Val", x)
+def Raw(x): return ("Raw", x)
+def PyTuple(*x): return ("PyTuple",) + x
 def clause(name, fn, serves=()): return (name, fn, tuple(serves))
-def raises(exc, when=None, ensures=(), serves=()): return (exc, when, ensures, serves)
+def raises(exc, when=None, ensures=(), serves=(), only_if=None): return (exc, when, ensures, serves, only_if)
 def loop(**kw): return kw
 def contract(*a, **k): pass
 def klass(*a, **k): pass
 def lemma(*a, **k): pass
+def contract_family(*a, **k): pass
